@@ -90,8 +90,12 @@ class Exec(CallsMixin, Interp):
 
     def exec(self, st):
         if self.x is not None and not self.ghost_mode and self.depth == 0 and \
-                (self.c.abstract or self.c.ghost_in_body):
+                (self.c.abstract or self.c.ghost_in_body or self.c.ghost_before):
             seg = (self.x.seg(st) or '')
+            for prefix, extra in self.c.ghost_before.items():
+                if seg.startswith(prefix):
+                    self.p.used_abstract.add(prefix)
+                    self.run_ghost(extra)
             for prefix, repl in self.c.abstract.items():
                 if seg.startswith(prefix):
                     self.p.used_abstract.add(prefix)
@@ -411,7 +415,7 @@ class Exec(CallsMixin, Interp):
                 names |= gn
         if self.c.ghost_in_body and self.x is not None:
             segs = [(self.x.seg(n) or '') for b in body for n in ast.walk(b) if isinstance(n, ast.stmt)]
-            for prefix, extra in self.c.ghost_in_body.items():
+            for prefix, extra in list(self.c.ghost_in_body.items()) + list(self.c.ghost_before.items()):
                 if not any(sg.startswith(prefix) for sg in segs):
                     continue
                 for text in extra:
@@ -614,6 +618,8 @@ class Exec(CallsMixin, Interp):
             raise Unsupported('enumerate over non-list with invariant')
         idx = inv.index or ('_i%d' % ordinal)
         self.coerce_declared_locals(st.body)
+        if tag == 'seq':
+            self.ghost_locals[idx + '_seq'] = src      # the iterated list, nameable in invariants
         self.ghost_locals[idx] = K.vint(0)
         self.check_inv(inv, ordinal, 'entry', st)
         self.havoc_for_loop(st.body, inv)
